@@ -25,6 +25,10 @@ keys = sorted(f"{f}::{n}" for f, n in sites)
 vx = os.path.join(ROOT, "vx/target/release/vx")
 src = os.environ.get("VERIF_REPO", "/repo") + "/crates/sas-lexer/src/lexer"
 out = json.loads(subprocess.run([vx, "scan", "bodyhash", "--src", src, "--fns", ",".join(keys)], capture_output=True, text=True, check=True).stdout)
+import hashlib
+repo = os.environ.get("VERIF_REPO", "/repo")
+for rel in ("crates/sas-lexer/src/lexer/token_type.rs", "crates/sas-lexer-macro/src/lib.rs"):
+    out["file:" + rel] = hashlib.sha256(open(os.path.join(repo, rel), "rb").read()).hexdigest()[:16]
 missing = [k for k, v in out.items() if v == "missing"]
 json.dump(out, open(os.path.join(C, "assumed_pins.json"), "w"), indent=1, sort_keys=True)
 print(len(out), "assumed bodies pinned;", "NOT FOUND: " + ", ".join(missing) if missing else "all found")
